@@ -1,5 +1,5 @@
 From Xdis Require Import Base.Prelude Base.Result Base.LE Model.Magic Model.Load Model.WriteHeader Gen.Magics Gen.RefMagics
-  Spec.Registry Spec.Header Proofs.HeaderProofs.
+  Spec.Registry Spec.Header Proofs.HeaderDefs Proofs.HeaderProofs.
 From Coq Require Import ZifyBool.
 Ltac Zify.zify_post_hook ::= Z.to_euclidean_division_equations.
 
